@@ -44,6 +44,8 @@ PROPERTIES = {
             "python_on_whales' docker.run(stream=True) yields (stream name, bytes) tuples and raises DockerException from the "
             "iterator when the container exits non-zero (its documented contract; the real package is not installed)",
             "a fresh interpreter is modelled by tempfile.tempdir = None in a forked child (that is the state of every new interpreter)",
+            "the container runs as a user other than the caller (as the experiments' images do): it can write its result only if the "
+            "directory bound at /results is writable and searchable for others",
         ],
     },
 }
@@ -454,6 +456,18 @@ def _child(case):
                 yield  # pragma: no cover
 
             return gen_refused()
+        # the experiments' images do not run as the caller's user: the container can create its result under /results only
+        # if the bind source lets *others* write (and search) it; otherwise the job dies with "Permission denied"
+        if host_results and os.path.isdir(host_results[0]) and (os.stat(host_results[0]).st_mode & 0o003) != 0o003:
+            rec["refused"] = (f"the container's user cannot write the directory mounted at /results "
+                              f"(mode {oct(os.stat(host_results[0]).st_mode & 0o777)}): Permission denied")
+            bump("reach:results_mount_not_writable_for_container_user")
+
+            def gen_denied():
+                yield ("stderr", b"cp: cannot create regular file '/results/ANALYSIS.root': Permission denied\n")
+                raise DockerException(["docker", "run", image], 1)
+
+            return gen_denied()
         if host_scripts:
             fl = os.path.join(host_scripts[0], "filelist.txt")
             if os.path.exists(fl):
